@@ -46,6 +46,14 @@ pub struct MoveGenerator {
 
 impl Default for MoveGenerator {
     fn default() -> Self {
+        #[cfg(feature = "verif-hooks")]
+        if let Some(capacity) = crate::verif_hooks::lru_capacity() {
+            return Self {
+                targets: Targets::default(),
+                cache: LruCache::new(NonZeroUsize::new(capacity).unwrap()),
+                hit_count: 0,
+            };
+        }
         Self {
             targets: Targets::default(),
             // Potentially a lot of memory, but helpful for high depths
